@@ -2,7 +2,7 @@ import GT.Base.JsonQ
 import GT.Base.QSqrt
 import GT.Model.Isometry
 import GT.Model.LinAlgQ
-open Lean GT.J GT Matrix
+open Lean GT.J GT Matrix GT.Iso GT.LinAlgQ
 namespace GT.Driver.C02
 
 /-- square rational matrix of any size with its dimension -/
